@@ -293,7 +293,7 @@ Resolve(r, d) ==
   IN
   IF fut = {} THEN Fail(r, d.fr, IF (futx # {} \/ d.rr) /\ d.clause \in {"popon_screen", "painton_screen", "doubled_control_once", "other_channel_ignored"}
                                  THEN d.clause \o "_row_reused" ELSE d.clause)
-                   /\ Dbg(<<"DBG", r, d.fr, <<>>, d.O>>)
+                   /\ Dbg(<<"DBG", r, d.fr, [j \in 1..(Len(hist) + 1 - d.from) |-> Brief(hist[d.from + j - 1].scr)], d.O>>)
   ELSE IF d.paint THEN Fail(r, d.fr, "painton_ahead_of_reception")
   ELSE AttrOk(hist[CHOOSE j \in fut : \A j2 \in fut : j <= j2].scr, d.O, r, d.fr, d.t)
 
